@@ -94,8 +94,9 @@ def jobOf (j : Json) : Except String Job := do
   let dm ← (match (← reqKey j "dmap") with | .null => pure none | v => do pure (some (← mapDeltaOf v)))
   let res ← (← reqKey j "res").getBool?
   let dp ← (← reqKey j "dp").getBool?
+  let js ← (← reqKey j "js").getBool?
   return { id := id, st := st, hd := hd, name := name, req := req, ctx := ctx, cmdMax := cm, dmap := dm,
-           res := res, dp := dp }
+           res := res, dp := dp, js := js }
 
 def outcomeOf (j : Json) : Except String Outcome :=
   match j with
@@ -192,7 +193,7 @@ def jobJ (j : Job) : Json :=
   Json.mkObj ([("id", optNatJ j.id), ("st", .str (statusToString j.st)), ("hd", toJson j.hd),
                ("name", toJson j.name), ("req", optReqJ j.req), ("ctx", optCtxJ j.ctx),
                ("dmap", match j.dmap with | some m => mapDeltaJ m | none => .null),
-               ("res", toJson j.res), ("dp", toJson j.dp)] ++
+               ("res", toJson j.res), ("dp", toJson j.dp), ("js", toJson j.js)] ++
               (match j.cmdMax with | some v => [("cmd_max", optNatJ v)] | none => []))
 
 def djobJ (e : DJob) : Json :=
